@@ -9,6 +9,12 @@ import ClarabelProofs.Lemmas.ScalarInst
 import Mathlib.Tactic.NormNum
 import Mathlib.Data.Fin.VecNotation
 import Mathlib.Algebra.BigOperators.Fin
+import ClarabelProofs.Lemmas.InfoEndToEnd
+import ClarabelProofs.Lemmas.InfoEndToEndExample
+import Mathlib.Tactic.FinCases
+import ClarabelProofs.Lemmas.InfoConesAll
+import ClarabelProofs.Lemmas.InfoPresolveUser
+import ClarabelProofs.Lemmas.InfoRollback
 
 namespace Clarabel.C02
 open Clarabel.Dense Clarabel.Info Finset
@@ -313,6 +319,247 @@ theorem rollback_stale_fields (j : InfoS α) (bz qx : α) (s : Settings α)
 
 end rollback
 
+/-! ## Round 3 — end to end on the USER's data, all cone kinds, the rollback path decided -/
+
+section endtoend
+open Clarabel.InfoUser Clarabel.Residuals
+
+/-- **[R] `C02.primal_infeasible_certifies_user_problem`** — end to end, no assumed relation
+between internal and user data.  `dt`: the data as `DefaultProblemData::new` leaves them
+(`UserData`); `dt'`: what the model's own `Equil.equilibrate` returns; `r`: what
+`Residuals.update` returns on the internal data for the iterate `v` (`κ > 0`); `info'`: what
+`Info.update` assigns.  If the convergence check — `check_convergence_full`
+(`almost = false`) or `check_convergence_almost` (`almost = true`, reduced tolerances) —
+newly assigns (Almost)PrimalInfeasible, then the κ-normalised `z` that `Variables.unscale`
+returns satisfies on the USER's `A`, `b` (dense meaning of `dt.A`, `dt.b`):
+`c·κ·bᵀz < −tol_infeas_abs`, hence `bᵀz < 0`, and
+`‖Aᵀz‖₂ < tol_infeas_rel · c · (−bᵀz) · max(1, κ‖z‖₂)`, with `c = dt'.equilibration.c` and
+`κ = v.κ` exactly as the code's test contains them; moreover `κ/τ > 1000/tol_ktratio` and
+`|z| = m`.  Composition of C10 (`scaled_data`, `inverse_scalings`, `scalings_positive`), C16
+(`gemvT_spec`, …) and `primal_cert`. -/
+theorem primal_infeasible_certifies_user_problem (almost : Bool)
+    (dt dt' : ProblemData ℝ) (cones : List (ConeT ℝ)) (es : Equil.Settings ℝ)
+    (hu : UserData dt cones es) (heq : Equil.equilibrate dt cones es = .ok dt')
+    (v : Vars ℝ) (r0 r : Resid ℝ) (hsh : StateShapes dt.n dt.m v r0) (hκ : 0 < v.κ)
+    (hr : Residuals.update r0 v (toResidData dt') = .ok r)
+    (i i' : InfoS ℝ) (normq normb : ℝ)
+    (hi : Info.update i (toInfoEquil dt'.equilibration) normq normb v r = .ok i')
+    (s : Settings ℝ)
+    (htabs : 0 ≤ (if almost then s.reduced else s.full).infeas_abs)
+    (h0 : i'.status ≠ (if almost then .almostPrimalInfeasible else .primalInfeasible))
+    (h : (if almost then checkConvergenceAlmost i' r.dot_bz r.dot_qx s
+          else checkConvergenceFull i' r.dot_bz r.dot_qx s).status
+        = (if almost then .almostPrimalInfeasible else .primalInfeasible)) :
+    let t := if almost then s.reduced else s.full
+    let out := Unscale.unscale v (toInfoEquil dt'.equilibration) true
+    let p := problemOf dt.P dt.q dt.A dt.b dt.n dt.m
+    let z := vecFn out.z dt.m
+    let c := dt'.equilibration.c
+    c * v.κ * dot p.b z < -t.infeas_abs
+    ∧ dot p.b z < 0
+    ∧ nrm (mulVT p.A z) < t.infeas_rel * c * (-(dot p.b z)) * max 1 (v.κ * nrm z)
+    ∧ v.κ * (1 / v.τ) > (1 / t.ktratio) * 1000
+    ∧ out.z.size = dt.m := by
+  intro t out p z c
+  have cf := chain_facts dt dt' cones es hu heq v r0 r hsh hr i i' normq normb hi true
+  simp only [↓reduceIte] at cf
+  have hconv : i'.ktratio > (1 / t.ktratio) * 1000 ∧ r.dot_bz < -t.infeas_abs
+      ∧ i'.res_primal_inf < -t.infeas_rel * r.dot_bz := by
+    cases almost with
+    | false =>
+      simp only [Bool.false_eq_true, ↓reduceIte] at h h0 ⊢
+      exact conv_pinf i' _ _ s.full .solved .primalInfeasible .dualInfeasible h h0 (by decide) (by decide)
+    | true =>
+      simp only [↓reduceIte] at h h0 ⊢
+      exact conv_pinf i' _ _ s.reduced .almostSolved .almostPrimalInfeasible .almostDualInfeasible h h0
+        (by decide) (by decide)
+  obtain ⟨hk, hbz, hres⟩ := hconv
+  have hpi : isPrimalInfeasible i' (dot ((p.scaled (scalingOf dt'.equilibration dt.n dt.m)).b) (vecFn v.z dt.m))
+      t.infeas_abs t.infeas_rel = true := by
+    rw [isPrimalInfeasible_iff, ← cf.dot_bz]; exact ⟨hbz, hres⟩
+  obtain ⟨c1, c2, c3⟩ := primal_cert p (scalingOf dt'.equilibration dt.n dt.m) (vecFn v.z dt.m) v.κ
+    t.infeas_abs t.infeas_rel i' cf.dpos cf.cpos hκ htabs cf.res_primal_inf hpi
+  have hz : z = unZ (scalingOf dt'.equilibration dt.n dt.m) v.κ (vecFn v.z dt.m) := cf.z
+  rw [hz]
+  refine ⟨c1, c2, c3, ?_, cf.szz⟩
+  rw [← cf.ktratio]; exact hk
+
+/-- **[R] `C02.dual_infeasible_certifies_user_problem`** — the dual analogue, end to end: if
+the convergence check (full or reduced tolerances) newly assigns (Almost)DualInfeasible, the
+κ-normalised `x`, `s` that `unscale` returns satisfy on the USER's `P`, `q`, `A`:
+`c·κ·qᵀx < −tol_infeas_abs`, `qᵀx < 0`,
+`‖Px‖₂ < tol_infeas_rel·(−qᵀx)·max(1, κ‖x‖₂)` and
+`‖Ax+s‖₂ < tol_infeas_rel·c·(−qᵀx)·max(1, κ(‖x‖₂+‖s‖₂))`; `κ/τ > 1000/tol_ktratio`;
+`|x| = n`, `|s| = m`. -/
+theorem dual_infeasible_certifies_user_problem (almost : Bool)
+    (dt dt' : ProblemData ℝ) (cones : List (ConeT ℝ)) (es : Equil.Settings ℝ)
+    (hu : UserData dt cones es) (heq : Equil.equilibrate dt cones es = .ok dt')
+    (v : Vars ℝ) (r0 r : Resid ℝ) (hsh : StateShapes dt.n dt.m v r0) (hκ : 0 < v.κ)
+    (hr : Residuals.update r0 v (toResidData dt') = .ok r)
+    (i i' : InfoS ℝ) (normq normb : ℝ)
+    (hi : Info.update i (toInfoEquil dt'.equilibration) normq normb v r = .ok i')
+    (s : Settings ℝ)
+    (htabs : 0 ≤ (if almost then s.reduced else s.full).infeas_abs)
+    (h0 : i'.status ≠ (if almost then .almostDualInfeasible else .dualInfeasible))
+    (h : (if almost then checkConvergenceAlmost i' r.dot_bz r.dot_qx s
+          else checkConvergenceFull i' r.dot_bz r.dot_qx s).status
+        = (if almost then .almostDualInfeasible else .dualInfeasible)) :
+    let t := if almost then s.reduced else s.full
+    let out := Unscale.unscale v (toInfoEquil dt'.equilibration) true
+    let p := problemOf dt.P dt.q dt.A dt.b dt.n dt.m
+    let x := vecFn out.x dt.n
+    let sv := vecFn out.s dt.m
+    let c := dt'.equilibration.c
+    c * v.κ * dot p.q x < -t.infeas_abs
+    ∧ dot p.q x < 0
+    ∧ nrm (mulV p.P x) < t.infeas_rel * (-(dot p.q x)) * max 1 (v.κ * nrm x)
+    ∧ nrm (fun k => mulV p.A x k + sv k)
+        < t.infeas_rel * c * (-(dot p.q x)) * max 1 (v.κ * (nrm x + nrm sv))
+    ∧ v.κ * (1 / v.τ) > (1 / t.ktratio) * 1000
+    ∧ out.x.size = dt.n ∧ out.s.size = dt.m := by
+  intro t out p x sv c
+  have cf := chain_facts dt dt' cones es hu heq v r0 r hsh hr i i' normq normb hi true
+  simp only [↓reduceIte] at cf
+  have hconv : i'.ktratio > (1 / t.ktratio) * 1000 ∧ r.dot_qx < -t.infeas_abs
+      ∧ i'.res_dual_inf < -t.infeas_rel * r.dot_qx := by
+    cases almost with
+    | false =>
+      simp only [Bool.false_eq_true, ↓reduceIte] at h h0 ⊢
+      exact conv_dinf i' _ _ s.full .solved .primalInfeasible .dualInfeasible h h0 (by decide) (by decide)
+    | true =>
+      simp only [↓reduceIte] at h h0 ⊢
+      exact conv_dinf i' _ _ s.reduced .almostSolved .almostPrimalInfeasible .almostDualInfeasible h h0
+        (by decide) (by decide)
+  obtain ⟨hk, hqx, hres⟩ := hconv
+  have hdi : isDualInfeasible i' (dot ((p.scaled (scalingOf dt'.equilibration dt.n dt.m)).q) (vecFn v.x dt.n))
+      t.infeas_abs t.infeas_rel = true := by
+    rw [isDualInfeasible_iff, ← cf.dot_qx]; exact ⟨hqx, hres⟩
+  obtain ⟨c1, c2, c3, c4⟩ := dual_cert p (scalingOf dt'.equilibration dt.n dt.m) (vecFn v.x dt.n)
+    (vecFn v.s dt.m) v.κ t.infeas_abs t.infeas_rel i' cf.dpos cf.epos cf.cpos hκ htabs
+    cf.res_dual_inf hdi
+  have hx : x = unX (scalingOf dt'.equilibration dt.n dt.m) v.κ (vecFn v.x dt.n) := cf.x
+  have hs : sv = unS (scalingOf dt'.equilibration dt.n dt.m) v.κ (vecFn v.s dt.m) := cf.s
+  rw [hx, hs]
+  refine ⟨c1, c2, c3, c4, ?_, cf.szx, cf.szs⟩
+  rw [← cf.ktratio]; exact hk
+
+/-- **[R] `C02.cone_of_cert_all`** — cone membership of the κ-normalised certificate, ALL
+SEVEN cone kinds: for the scalings the model's own `equilibrate` returns and a cone list with
+admissible parameters, `ŝ ∈ K`, `ẑ ∈ K*` for the internal iterate (`κ > 0`) imply `s ∈ K`,
+`z ∈ K*` for the vectors `unscale` returns under an infeasibility status (per-cone tests as in
+`C01.returned_point_in_cones`: the model's `is_primal_feasible`/`is_dual_feasible` for
+exp / pow / genpow, the quadratic form for PSD, …). -/
+theorem cone_of_cert_all (dt dt' : ProblemData ℝ) (cones : List (ConeT ℝ))
+    (es : Equil.Settings ℝ) (hlo : 0 < es.minScaling) (hhi : 0 < es.maxScaling)
+    (hfresh : dt.equilibration = EquilData.new dt.n dt.m) (hv : Equil.ValidCones cones)
+    (heq : Equil.equilibrate dt cones es = .ok dt')
+    (v : Vars ℝ) (hs : v.s.size = dt.m) (hz : v.z.size = dt.m) (hκ : 0 < v.κ)
+    (hsK : Equil.CompositeMem Equil.ConeMem cones v.s.toList)
+    (hzK : Equil.CompositeMem Equil.ConeMemDual cones v.z.toList) :
+    let out := Unscale.unscale v (toInfoEquil dt'.equilibration) true
+    Equil.CompositeMem Equil.ConeMem cones out.s.toList
+    ∧ Equil.CompositeMem Equil.ConeMemDual cones out.z.toList :=
+  InfoCone.unscaled_point_in_cones dt dt' cones es hlo hhi hfresh hv heq v hs hz true
+    (by simpa using hκ) hsK hzK
+
+end endtoend
+
+section rollback3
+variable {α : Type} [Field α] [LinearOrder α] [IsStrictOrderedRing α] [FloatLike α]
+
+/-- **[F] `C02.rollback_never_infeasible` — the rollback path, decided (1/2).**  The only way
+`Info::post_process` runs on a rolled-back iterate is: `check_termination` reports
+`InsufficientProgress`, the checkpoint restores the previous iterate and fails.
+`check_termination` assigns `InsufficientProgress` only under `ktratio < ε·100` or
+`ktratio < 1`, `reset_to_prev_iterate` leaves `ktratio` alone, and `check_convergence` looks
+at the infeasibility tests only for `ktratio > 1000/tol_ktratio`.  Hence, whenever
+`1 ≤ (1/reduced_tol_ktratio)·1000` (every `reduced_tol_ktratio ≤ 1000`; default `1e-4`) and
+`ε·100 ≤ 1`: the verdict after a rollback is NEVER `Almost{Primal,Dual}Infeasible`; it is
+`AlmostSolved` — and then the reduced optimality test holds on the RESTORED (`prev_*`)
+figures, those of the returned iterate — or stays `InsufficientProgress`. -/
+theorem rollback_never_infeasible (i : InfoS α) (bz qx : α) (s : Settings α) (iter : Nat)
+    (tov : Bool) (h0 : i.status = .unsolved)
+    (hip : (checkTermination i bz qx s iter tov).1.status = .insufficientProgress)
+    (heps : (FloatLike.eps : α) * 100 ≤ 1)
+    (hgate : 1 ≤ (1 / s.reduced.ktratio) * 1000) :
+    let j := (checkTermination i bz qx s iter tov).1
+    let out := Info.postProcess (resetToPrev j) bz qx s
+    j.ktratio < 1
+    ∧ out.status ≠ .almostPrimalInfeasible ∧ out.status ≠ .almostDualInfeasible
+    ∧ (out.status = .almostSolved ∨ out.status = .insufficientProgress)
+    ∧ (out.status = .almostSolved →
+        (j.prev_gap_abs < s.reduced.gap_abs ∨ j.prev_gap_rel < s.reduced.gap_rel)
+        ∧ j.prev_res_primal < s.reduced.feas ∧ j.prev_res_dual < s.reduced.feas) :=
+  Info.rollback_never_infeasible i bz qx s iter tov h0 hip heps hgate
+
+end rollback3
+
+/-- **[R] `C02.rollback_counterexample` — the rollback path, decided (2/2).**  With
+`reduced_tol_ktratio = 10⁶ > 1000` (no validation rejects it) the gate opens below 1 and the
+skeleton returns `AlmostPrimalInfeasible` for a restored iterate that FAILS the reduced test:
+pass `k` (`cxPrev`: `res_primal_inf = 3/5`, `b̂ᵀẑ = −4`) is not terminal; pass `k+1`
+(`cxDisc`: residuals 1000× worse, `ktratio = 1/2`, `res_primal_inf = 0`, `b̂ᵀẑ = −1`) is
+`InsufficientProgress`; after `reset_to_prev_iterate`, `Info::post_process` says
+`AlmostPrimalInfeasible` from the DISCARDED iterate's `ktratio`, `res_primal_inf`, `dot_bz`,
+while the figures reported and the certificate returned are the restored iterate's, for which
+`is_primal_infeasible` with the reduced tolerances is `false`.  (Replayed on the
+implementation: see the harness family `rollback-gate-open`.) -/
+theorem rollback_counterexample :
+    (checkTermination Info.cxPrev (-4) 0 Info.cxSettings 5 false).2 = false
+    ∧ (checkTermination Info.cxDisc (-1) 0 Info.cxSettings 6 false).1.status = .insufficientProgress
+    ∧ (Info.postProcess (resetToPrev (checkTermination Info.cxDisc (-1) 0 Info.cxSettings 6 false).1)
+          (-1) 0 Info.cxSettings).status = .almostPrimalInfeasible
+    ∧ (resetToPrev (checkTermination Info.cxDisc (-1) 0 Info.cxSettings 6 false).1).res_primal
+        = Info.cxPrev.res_primal
+    ∧ isPrimalInfeasible Info.cxPrev (-4) Info.cxReduced.infeas_abs Info.cxReduced.infeas_rel = false :=
+  Info.rollback_counterexample
+
+section presolved
+open Clarabel.InfoUser Clarabel.InfoPresolve
+
+/-- **[R] `C02.primal_cert_presolved`** — rows dropped by presolve: a Farkas certificate for
+the REDUCED problem is one for the USER's full problem.  With `emb` the enumeration of the
+kept rows (`InfoPresolve.embFin` builds it from the presolver's `keep_logical`;
+`reversal_fn_facts_of_transparent` supplies `z (emb r) = z' r` and `z = 0` on dropped rows
+from `C01.presolve_transparent`; C09's `reduced_problem_dense` supplies `A' r = A (emb r)`):
+`b'ᵀz' < 0` and `‖A'ᵀz'‖ < bnd(b'ᵀz', ‖z'‖)` give `bᵀz < 0` and `‖Aᵀz‖ < bnd(bᵀz, ‖z‖)` with the
+SAME numbers (`Aᵀz = A'ᵀz'`, `bᵀz = b'ᵀz'`, `‖z‖ = ‖z'‖`); `bnd` is any bound in these two
+quantities, e.g. `tol·c·(−bᵀz)·max(1, κ‖z‖)` of `primal_cert`. -/
+theorem primal_cert_presolved {n m mr : ℕ} (emb : Fin mr → Fin m) (keep : Fin m → Bool)
+    (hinj : Function.Injective emb) (hkeep : ∀ i, keep i = true ↔ ∃ r, emb r = i)
+    (A : Fin m → Fin n → ℝ) (b z : Fin m → ℝ)
+    (A' : Fin mr → Fin n → ℝ) (b' z' : Fin mr → ℝ)
+    (hA' : ∀ r j, A' r j = A (emb r) j) (hb' : ∀ r, b' r = b (emb r))
+    (hz' : ∀ r, z (emb r) = z' r) (hz : ∀ i, keep i = false → z i = 0)
+    (bnd : ℝ → ℝ → ℝ)
+    (hbz : dot b' z' < 0) (hAtz : nrm (mulVT A' z') < bnd (dot b' z') (nrm z')) :
+    dot b z < 0 ∧ nrm (mulVT A z) < bnd (dot b z) (nrm z)
+    ∧ (∀ j, mulVT A z j = mulVT A' z' j) ∧ dot b z = dot b' z' ∧ nrm z = nrm z' :=
+  primal_infeasible_full_problem emb keep hinj hkeep A b z A' b' z' hA' hb' hz' hz bnd hbz hAtz
+
+/-- **[R] `C02.dual_cert_presolved`** — the dual-infeasibility certificate and dropped rows:
+`qᵀx < 0`, `‖Px‖ < bndP` do not involve the rows; `‖A'x+s'‖ < bnd(‖s'‖)` gives
+`‖(Ax+s)|kept‖ < bnd(‖s|kept‖)` with the same numbers; on the dropped rows `s = infbound`
+(so there the row of `Ax + s` is NOT small — exactly the exception the property states). -/
+theorem dual_cert_presolved {n m mr : ℕ} (emb : Fin mr → Fin m) (keep : Fin m → Bool)
+    (hinj : Function.Injective emb) (hkeep : ∀ i, keep i = true ↔ ∃ r, emb r = i)
+    (P : Fin n → Fin n → ℝ) (q : Fin n → ℝ) (A : Fin m → Fin n → ℝ) (s : Fin m → ℝ)
+    (A' : Fin mr → Fin n → ℝ) (s' : Fin mr → ℝ)
+    (hA' : ∀ r j, A' r j = A (emb r) j) (hs' : ∀ r, s (emb r) = s' r)
+    (infbound : ℝ) (hdrop : ∀ i, keep i = false → s i = infbound)
+    (x : Fin n → ℝ) (bndP : ℝ) (bnd : ℝ → ℝ)
+    (hqx : dot q x < 0) (hPx : nrm (mulV P x) < bndP)
+    (hAxs : nrm (fun r => mulV A' x r + s' r) < bnd (nrm s')) :
+    dot q x < 0 ∧ nrm (mulV P x) < bndP
+    ∧ nrmKept keep (fun i => mulV A x i + s i) < bnd (nrmKept keep s)
+    ∧ nrmKept keep (fun i => mulV A x i + s i) = nrm (fun r => mulV A' x r + s' r)
+    ∧ nrmKept keep s = nrm s'
+    ∧ ∀ i, keep i = false → s i = infbound :=
+  dual_infeasible_full_problem emb keep hinj hkeep P q A s A' s' hA' hs' infbound hdrop x bndP bnd
+    hqx hPx hAxs
+
+end presolved
+
 /-! ### non-vacuity -/
 
 /-- witness: a 1×1 problem `0·x + s = −1, s ≥ 0` with `ẑ = 1`, trivial scaling -/
@@ -406,5 +653,72 @@ example :
         (fun r => (r.1.x, r.1.s, r.1.z, r.1.obj_val, r.1.iterations))
     = some (#[10], #[1, 99, 2], #[3, 0, 12], none, 4) := by
   decide +kernel
+
+/-! ### non-vacuity of the round-3 theorems -/
+
+section examples3
+open Clarabel.InfoUser Clarabel.Residuals Clarabel.InfoPresolve
+
+/-- ALL hypotheses of `primal_infeasible_certifies_user_problem` (`almost = false`) hold on a
+concrete instance (`0·x + s = −1, s ≥ 0`, `ẑ = 1`, `κ/τ = 2000`; `InfoUser.chain_example_pinf`) -/
+example : ∃ (dt dt' : ProblemData ℝ) (cones : List (ConeT ℝ)) (es : Equil.Settings ℝ) (v : Vars ℝ)
+    (r0 r : Resid ℝ) (i i' : InfoS ℝ) (normq normb : ℝ) (s : Settings ℝ),
+    UserData dt cones es ∧ Equil.equilibrate dt cones es = .ok dt'
+    ∧ StateShapes dt.n dt.m v r0 ∧ 0 < v.κ
+    ∧ Residuals.update r0 v (toResidData dt') = .ok r
+    ∧ Info.update i (toInfoEquil dt'.equilibration) normq normb v r = .ok i'
+    ∧ 0 ≤ s.full.infeas_abs
+    ∧ i'.status ≠ .primalInfeasible
+    ∧ (checkConvergenceFull i' r.dot_bz r.dot_qx s).status = .primalInfeasible :=
+  let ⟨r, i', h⟩ := chain_example_pinf
+  ⟨iData, iData, _, zEs, iVarsP, zRes0, r, zInfo, i', 1, 1, iSettings, h⟩
+
+/-- ALL hypotheses of `dual_infeasible_certifies_user_problem` (`almost = false`) hold on a
+concrete instance (`q = −1`, `x̂ = 1`, `κ/τ = 2000`; `InfoUser.chain_example_dinf`) -/
+example : ∃ (dt dt' : ProblemData ℝ) (cones : List (ConeT ℝ)) (es : Equil.Settings ℝ) (v : Vars ℝ)
+    (r0 r : Resid ℝ) (i i' : InfoS ℝ) (normq normb : ℝ) (s : Settings ℝ),
+    UserData dt cones es ∧ Equil.equilibrate dt cones es = .ok dt'
+    ∧ StateShapes dt.n dt.m v r0 ∧ 0 < v.κ
+    ∧ Residuals.update r0 v (toResidData dt') = .ok r
+    ∧ Info.update i (toInfoEquil dt'.equilibration) normq normb v r = .ok i'
+    ∧ 0 ≤ s.full.infeas_abs
+    ∧ i'.status ≠ .dualInfeasible
+    ∧ (checkConvergenceFull i' r.dot_bz r.dot_qx s).status = .dualInfeasible :=
+  let ⟨r, i', h⟩ := chain_example_dinf
+  ⟨iData, iData, _, zEs, iVarsD, zRes0, r, zInfo, i', 1, 1, iSettings, h⟩
+
+/-- `cone_of_cert_all`: its hypotheses are satisfiable (`ŝ = 0`, `ẑ = 1` in `ℝ₊`, `κ = 2000`) -/
+example : Equil.ValidCones [ConeT.nonneg 1]
+    ∧ Equil.equilibrate iData [.nonneg 1] zEs = .ok iData ∧ 0 < iVarsP.κ
+    ∧ Equil.CompositeMem Equil.ConeMem [ConeT.nonneg 1] iVarsP.s.toList
+    ∧ Equil.CompositeMem Equil.ConeMemDual [ConeT.nonneg 1] iVarsP.z.toList := by
+  refine ⟨?_, iData_equil, by norm_num [iVarsP], ?_, ?_⟩
+  · intro c hc; simp at hc; subst hc; simp [Equil.ValidCone]
+  · simp [Equil.CompositeMem, Equil.ConeMem, ConeT.nvars, iVarsP]
+  · simp [Equil.CompositeMem, Equil.ConeMemDual, ConeT.nvars, iVarsP]
+
+/-- the hypotheses of `rollback_never_infeasible` are satisfiable (over ℝ, default gate) -/
+example :
+    let s : Settings ℝ := { Info.cxSettings with reduced := { Info.cxReduced with ktratio := 1/10000 } }
+    Info.cxDisc.status = .unsolved
+    ∧ (checkTermination Info.cxDisc (-1) 0 s 6 false).1.status = .insufficientProgress
+    ∧ (FloatLike.eps : ℝ) * 100 ≤ 1
+    ∧ 1 ≤ (1 / s.reduced.ktratio) * 1000 :=
+  Info.rollback_hyps_example
+
+/-- the hypotheses of `primal_cert_presolved` / `dual_cert_presolved` on the enumeration of the
+kept rows are satisfiable: `m = 3`, row 1 dropped, `emb = ![0, 2]`, `z` vanishing there -/
+example :
+    let emb : Fin 2 → Fin 3 := ![0, 2]
+    let keep : Fin 3 → Bool := ![true, false, true]
+    let z : Fin 3 → ℝ := ![5, 0, -7]
+    Function.Injective emb ∧ (∀ i, keep i = true ↔ ∃ r, emb r = i)
+      ∧ (∀ i, keep i = false → z i = 0) := by
+  intro emb keep z
+  refine ⟨by decide, by decide, ?_⟩
+  intro i
+  fin_cases i <;> simp [keep, z]
+
+end examples3
 
 end Clarabel.C02
